@@ -227,6 +227,15 @@ def run_property(prop: str, modules: List[str], tier: str, seed: int) -> int:
         _write_evidence(prop, tier, seed, t0, [], [], corpus_cases, functions_encoded, assumptions, bounds,
                         violations=0, harness_errors=errors, known_hits=[])
         return 3
+    # size the tier by total wall time: if the budgets add up to more than the tier's wall-clock
+    # target on NPROC cores, scale them down proportionally (never below 30 s); obligations that
+    # exhaust earlier finish earlier, so the target is an upper bound
+    wall_target = float(os.environ.get("VF_WALL_TARGET", "2400" if tier == "thorough" else "330"))
+    total = sum(o.budget_s for o in obs)
+    if total > wall_target * NPROC:
+        k = wall_target * NPROC / total
+        for o in obs:
+            o.budget_s = max(30.0, round(o.budget_s * k, 1))
     pool = Pool(NPROC)
     # order: longest budgets first
     obs.sort(key=lambda o: -o.budget_s)
